@@ -552,6 +552,62 @@ def replay_blowfish():
     return False
 
 
+# ------------------------------------------------------------------ SASLprep (RFC 4013) against the stdlib stringprep tables
+def _saslprep_ref(s):
+    """RFC 4013 written from the RFC with the stdlib tables: map (B.1 -> nothing, C.1.2 -> U+0020), NFKC, prohibit, bidi"""
+    import stringprep as sp
+    import unicodedata
+    out = []
+    for c in s:
+        if sp.in_table_b1(c):
+            continue
+        out.append(" " if sp.in_table_c12(c) else c)
+    t = unicodedata.normalize("NFKC", "".join(out))
+    if not t:
+        return t
+    for c in t:
+        if (sp.in_table_c12(c) or sp.in_table_c21(c) or sp.in_table_c22(c) or sp.in_table_c3(c) or sp.in_table_c4(c) or
+                sp.in_table_c5(c) or sp.in_table_c6(c) or sp.in_table_c7(c) or sp.in_table_c8(c) or sp.in_table_c9(c) or sp.in_table_a1(c)):
+            raise ValueError("prohibited")
+    rand = any(sp.in_table_d1(c) for c in t)
+    if rand:
+        if any(sp.in_table_d2(c) for c in t) or not (sp.in_table_d1(t[0]) and sp.in_table_d1(t[-1])):
+            raise ValueError("bidi")
+    return t
+
+
+def replay_saslprep():
+    import itertools
+    from passlib.utils import saslprep
+    alpha = ["a", "B", "1", " ", "\u00a0", "\u00ad", "\u200b", "\u1680", "\u3000", "\u0300", "\u0301", "\u00e0", "\ufb01", "\u2168",
+             "\u05d0", "\u0627", "\u0000", "\u007f", "\u0080", "\u0221", "\ue000", "\ufdd0", "\ufff9", "\u200e", "\U000e0001", "\u00aa",
+             "\u1e9b", "\u0323", "\u212b", "\u0041\u030a"]
+    n = 0
+    for k in (1, 2, 3):
+        for tup in itertools.product(alpha, repeat=k):
+            s = "".join(tup)
+            try:
+                want = _saslprep_ref(s)
+            except ValueError:
+                want = ValueError
+            try:
+                got = saslprep(s)
+            except ValueError:
+                got = ValueError
+            n += 1
+            if got != want:
+                return "saslprep(%r) = %r, RFC 4013 gives %r" % (s, got, want)
+    return False
+
+
+def ob_saslprep():
+    r = replay_saslprep()
+    if r:
+        return violation(r, "saslprep", {"module": "harness.c11_misc", "func": "replay_saslprep", "args": {}})
+    return ok("saslprep == RFC 4013 (stdlib stringprep tables, NFKC) on all strings of 1-3 symbols over a 30-symbol hostile alphabet "
+              "(27930 strings; enumeration)", paths=27930, verdict="finite-enumeration", nontrivial=False)
+
+
 # ------------------------------------------------------------------ scrypt
 class SList(list):
     """list whose __getitem__ accepts a symbolic index (element-wise mux over tuples of words)"""
